@@ -49,10 +49,11 @@ private def task? (s : String) : Option TaskIO :=
 private def ios? (s : String) : Option (List TaskIO) :=
   if s == "" then some [] else (s.splitOn "|").mapM task?
 
-/-- `<id>:<decorated>:<plain>` with dot lists -/
+/-- `<id>:<decorated>:<plain>[:x]` with dot lists (`x` = the import raises) -/
 private def mod? (s : String) : Option ModSpec :=
   match s.splitOn ":" with
-  | [i, d, p] => do let id ← i.toNat?; let ds ← dots d; let ps ← dots p; pure ⟨id, ds, ps⟩
+  | [i, d, p] => do let id ← i.toNat?; let ds ← dots d; let ps ← dots p; pure ⟨id, ds, ps, false⟩
+  | [i, d, p, "x"] => do let id ← i.toNat?; let ds ← dots d; let ps ← dots p; pure ⟨id, ds, ps, true⟩
   | _ => none
 
 private def mods? (s : String) : Option (List ModSpec) :=
@@ -98,7 +99,7 @@ def captureHandle (cs : CaptureSt) (cmd : String) (a : Args) : CaptureSt × Stri
       let cfg : Cfg := { method := m, cfgFilters := cf, configFails := a.get "cfgfail" == "1" }
       let st := runBuild cfg mods ios cs.st
       let tasks := ",".intercalate (st.tasks.map fun t => s!"{t.1}:{t.2}")
-      ({ st := st }, s!"fault={if st.w.fault then 1 else 0} secs={showSecs st.secs} tasks={tasks}")
+      ({ st := st }, s!"fault={if st.w.fault then 1 else 0} secs={showSecs st.secs} tasks={tasks} collectfailed={if st.collectFailed then 1 else 0}")
     | _, _, _, _ => (cs, "bad-op")
   | "capture.release" => ({ st := release {} cs.st }, "ok")
   | "capture.state" =>
